@@ -42,6 +42,20 @@ def run(tier, seed):
         R.guard("parallel-polys-are-the-sum", inp, lambda: (rat_eq(pd_of(ParallelFilter(f, g).numpoly), pd_of(ParallelFilter(f, g).denpoly), pd_add(pd_mul(n1, d2), pd_mul(n2, d1)), pd_mul(d1, d2)), "ParallelFilter num/den"))
         R.guard("parallel-of-a-filter-with-itself", {"f": s1}, lambda: (rat_eq(pd_of(ParallelFilter(f, f).numpoly), pd_of(ParallelFilter(f, f).denpoly), pd_mul({0: 2}, n1), d1),
                                                                         "ParallelFilter(f, f): numpoly %r denpoly %r is not 2f" % (pd_of(ParallelFilter(f, f).numpoly), pd_of(ParallelFilter(f, f).denpoly))))
+        # the parts may themselves be cascades / banks (they are filters too): polynomials of the nested composite
+        if s1[0] + s1[1] <= 3 and s2[0] + s2[1] <= 3:
+            R.guard("parallel-of-cascades-polys-are-the-sum-of-the-products", inp,
+                    lambda: (rat_eq(pd_of(ParallelFilter(CascadeFilter(f, g), CascadeFilter(g, g)).numpoly), pd_of(ParallelFilter(CascadeFilter(f, g), CascadeFilter(g, g)).denpoly),
+                                    pd_add(pd_mul(pd_mul(n1, n2), pd_mul(d2, d2)), pd_mul(pd_mul(n2, n2), pd_mul(d1, d2))), pd_mul(pd_mul(d1, d2), pd_mul(d2, d2))),
+                             "ParallelFilter(CascadeFilter(f, g), CascadeFilter(g, g)): numpoly / denpoly is not f*g + g*g"))
+            R.guard("parallel-of-cascades-polys-are-the-sum-of-the-products", dict(inp, shape="bank(cascade, filter)"),
+                    lambda: (rat_eq(pd_of(ParallelFilter(CascadeFilter(f, g), f).numpoly), pd_of(ParallelFilter(CascadeFilter(f, g), f).denpoly),
+                                    pd_add(pd_mul(pd_mul(n1, n2), d1), pd_mul(n1, pd_mul(d1, d2))), pd_mul(pd_mul(d1, d2), d1)),
+                             "ParallelFilter(CascadeFilter(f, g), f): numpoly / denpoly is not f*g + f"))
+            R.guard("cascade-of-banks-polys-are-the-product-of-the-sums", inp,
+                    lambda: (rat_eq(pd_of(CascadeFilter(ParallelFilter(f, g), ParallelFilter(g, g)).numpoly), pd_of(CascadeFilter(ParallelFilter(f, g), ParallelFilter(g, g)).denpoly),
+                                    pd_mul(pd_add(pd_mul(n1, d2), pd_mul(n2, d1)), pd_mul({0: 2}, n2)), pd_mul(pd_mul(d1, d2), d2)),
+                             "CascadeFilter(ParallelFilter(f, g), ParallelFilter(g, g)): numpoly / denpoly is not (f+g)*(2g)"))
         c = Sym.var("c")
         R.guard("scalar-mul", inp, lambda: (rat_eq(*nd(c * f), pd_mul({0: c}, n1), d1) and rat_eq(*nd(f * c), pd_mul({0: c}, n1), d1), "c*f"))
         for n in (0, 1, 2, 3, -1, -2):
